@@ -28,6 +28,7 @@ def bl(s):
 
 
 def facts(ctx):
+    ties = []          # shape fragments that no longer match: reported as a broken tie, the run goes on
     lt = common.src("sdk/src/assertions/labels.rs")
 
     def const(name):
@@ -46,38 +47,38 @@ def facts(ctx):
     for frag in ("return Err(Error::AssertionInvalidRedaction);", "if manifest != self.label() {", "if assertion_uri.contains(ASSERTION_STORE) {",
                  "self.assertion_store.remove(index);", "Err(Error::AssertionRedactionNotFound)"):
         if frag not in ra:
-            raise TieBroken(f"srcfacts: redact_assertion no longer contains `{frag}`")
+            ties.append(f"srcfacts: redact_assertion no longer contains `{frag}`")
     vi = common.fn_body(t, r"fn\s+verify_internal\s*\(", "verify_internal")
     for frag in ("if r.contains(claim.label()) {", "if r.contains(labels::ACTIONS) {", "labels::HASH_LABELS.iter().any(|label| r.contains(label))",
                  "r_label == label && r_instance == instance", "if r_manifest == claim.label() {",
                  "if !vec_compare(ca.hash(), &assertion.hash()) {", "ca_tracking_list.swap_remove(index);", "if !ca_tracking_list.is_empty() {"):
         if frag not in vi:
-            raise TieBroken(f"srcfacts: verify_internal no longer contains `{frag}`")
+            ties.append(f"srcfacts: verify_internal no longer contains `{frag}`")
     ad = common.fn_body(t, r"fn\s+add_ingredient_data\s*\(", "add_ingredient_data")
     for frag in (".find(|x| redaction.contains(x.label()))", "claim.redact_assertion(redaction)?;", "applied_redactions.push(redaction.clone());",
                  "Some(existing) => existing.extend(applied_redactions),"):
         if frag not in ad:
-            raise TieBroken(f"srcfacts: add_ingredient_data no longer contains `{frag}`")
+            ties.append(f"srcfacts: add_ingredient_data no longer contains `{frag}`")
     s = common.strip_tests(common.src("sdk/src/store.rs"))
     ic = common.fn_body(s, r"fn\s+ingredient_checks\s*\(", "ingredient_checks")
     for frag in ("let has_redactions = svi.redactions.iter().any(|r| r.contains(&label));", "let manifests_match = if !has_redactions {",
                  "if !manifests_match && !has_redactions {", "if !manifests_match && has_redactions && ingredient_version > 1 {",
                  "&ingredient_hashes.signature_box_hash,"):
         if frag not in ic:
-            raise TieBroken(f"srcfacts: ingredient_checks no longer contains `{frag}`")
+            ties.append(f"srcfacts: ingredient_checks no longer contains `{frag}`")
     md = common.fn_body(s, r"fn\s+manifest_differs_by_redaction\s*\(", "manifest_differs_by_redaction")
     for frag in ("if d1 != d2 {", "if c1.signature_val() != c2.signature_val() {", "c1_set.symmetric_difference(&c2_set)",
                  "if redact_matches == differences.len() {"):
         if frag not in md:
-            raise TieBroken(f"srcfacts: manifest_differs_by_redaction no longer contains `{frag}`")
+            ties.append(f"srcfacts: manifest_differs_by_redaction no longer contains `{frag}`")
     li = common.fn_body(s, r"pub\s+fn\s+load_ingredient_to_claim\s*\(", "load_ingredient_to_claim")
     for frag in ("if !claim_redactions.is_empty() && svi.redactions.is_empty() {", "} else if claim_redactions.is_empty() && !svi.redactions.is_empty() {",
                  "to_both.append(&mut differences);"):
         if frag not in li:
-            raise TieBroken(f"srcfacts: load_ingredient_to_claim no longer contains `{frag}`")
+            ties.append(f"srcfacts: load_ingredient_to_claim no longer contains `{frag}`")
     bt = common.strip_tests(common.src("sdk/src/builder.rs"))
     if not re.search(r"if\s+!applied\.contains\(redaction\)\s*\{\s*return\s+Err\(Error::AssertionRedactionNotFound\);", bt):
-        raise TieBroken("srcfacts: Builder::to_claim no longer checks that every requested redaction was applied")
+        ties.append("srcfacts: Builder::to_claim no longer checks that every requested redaction was applied")
     v = ("(* generated from sdk/src/assertions/labels.rs and sdk/src/claim.rs on every run — do not edit *)\n"
          "From Coq Require Import NArith List.\nImport ListNotations.\nLocal Open Scope N_scope.\n"
          f"(* \"{actions}\" *)\nDefinition L_ACTIONS : list N := {bl(actions)}.\n"
@@ -87,6 +88,11 @@ def facts(ctx):
          f"(* \"{dstore}\" *)\nDefinition L_DATABOX_STORE : list N := {bl(dstore)}.\n")
     common.write_if_changed(os.path.join(common.COQ, "Generated", "C20_facts.v"), v)
     ctx.facts = {"actions": actions, "hashes": hashes}
+    if ties:
+        if getattr(ctx, "tie_errors", None) is not None:
+            ctx.tie_errors.extend(ties)
+        else:
+            raise TieBroken("; ".join(ties))
 
 
 # ------------------------------------------------------------------ cases
@@ -98,8 +104,20 @@ def tgt(m, a):
 SHARED = 9        # every level also carries an assertion labelled com.verif.shared (index 9)
 
 
+# with "sib": level 0 also carries same-label siblings (stored as dup, dup__1, dup__2) and two labels one of which is a
+# prefix of the other (harness SIBLINGS)
+SIBLINGS = {20: "com.verif.dup", 21: "com.verif.dup__1", 22: "com.verif.dup__2", 30: "org.va", 31: "org.vab"}
+
+
 def custom(level, i):
+    if i in SIBLINGS:
+        return SIBLINGS[i]
     return "com.verif.shared" if i == SHARED else f"com.verif.a{level}_{i}"
+
+
+def split_inst(label):
+    m = re.fullmatch(r"(.*)__(\d+)", label)
+    return (m.group(1), int(m.group(2))) if m else (label, 0)
 
 
 def all_customs(levels):
@@ -177,6 +195,19 @@ def gen_cases(ctx):
             c["post"] = [[0, 1]]
             c["kind"] = "post-overwrite"
             cases.append(c)
+    # 5. siblings: several assertions sharing a label / labels that are prefixes of one another; one is redacted, then the
+    #    payload of a surviving sibling is overwritten in the finished asset
+    sib = [(21, 20), (31, 30), (22, 21), (22, 20)] if q else [(21, 20), (31, 30), (22, 21), (22, 20), (21, 22), (20, 21), (30, 31), (20, 22)]
+    for red, tam in sib:
+        c = builder_case("jpeg", [1], [(0, red)], rng.choice(["edit", "update"]))
+        c["sib"] = True
+        c["post"] = [[0, tam]]
+        c["kind"] = "sibling-tamper"
+        cases.append(c)
+    c = builder_case("jpeg", [1], [(0, 21), (0, 31)], "edit")
+    c["sib"] = True
+    c["kind"] = "sibling-subset"
+    cases.append(c)
     return cases
 
 
@@ -206,15 +237,15 @@ Fixpoint unlist (ings : list manifest) (us : list ruri) : option (list manifest)
   | [] => Some ings
   | u :: t => match redact_in ings u with ROk (Some i') => unlist i' t | _ => None end
   end.
-Definition poison (ings : list manifest) (l al : bytes) : list manifest :=
+Definition poison (ings : list manifest) (l : bytes) (k : bytes * N) : list manifest :=
   map (fun x => if beq (m_label x) l
-                then set_store x (map (fun a => if same_key al 0 a then Asrt (a_label a) (a_inst a) (255 :: a_data a) else a) (m_store x))
+                then set_store x (map (fun a => if same_key (fst k) (snd k) a then Asrt (a_label a) (a_inst a) (255 :: a_data a) else a) (m_store x))
                 else x) ings.
 Definition customs (x : manifest) : list bytes :=
-  map a_label (filter (fun a => starts_with (b "com.verif."%string) (a_label a)) (m_store x)).
+  map a_label (filter (fun a => starts_with (b "com.verif."%string) (a_label a) || starts_with (b "org.v"%string) (a_label a)) (m_store x)).
 Definition pair_of (r : ruri) : bytes * bytes := (match r_manifest r with Some m => m | None => [] end, label_with_instance (r_label r) (r_inst r)).
 Inductive outcome := Refused (e : rerr) | CraftFailed | Done (reds : list (bytes * bytes)) (present : list (list bytes)) (codes : list vcode).
-Definition run_case (top : manifest) (ings : list manifest) (rs us : list ruri) (ov : option (list ruri)) (ps : list (bytes * bytes)) : outcome :=
+Definition run_case (top : manifest) (ings : list manifest) (rs us : list ruri) (ov : option (list ruri)) (ps : list (bytes * (bytes * N))) : outcome :=
   match builder_redact top ings rs with
   | RErr e => Refused e
   | ROk (top1, ings1) =>
@@ -237,7 +268,8 @@ def mlabel(m):
 
 
 def coq_uri(t):
-    return f'RUri (Some {bl(mlabel(t["m"]))}%N) UAssertion {bl(t["a"])}%N 0'
+    lbl, inst = split_inst(t["a"])
+    return f'RUri (Some {bl(mlabel(t["m"]))}%N) UAssertion {bl(lbl)}%N {inst}'
 
 
 def model_expr(c):
@@ -246,6 +278,10 @@ def model_expr(c):
     for l, n in enumerate(levels):
         asrts = [f'Asrt {bl("c2pa.thumbnail.claim")}%N 0 [{l};9;1]%N', f'Asrt {bl("c2pa.actions.v2")}%N 0 [{l};9;2]%N']
         asrts += [f'Asrt {bl(custom(l, i))}%N 0 [{l};{i};7]%N' for i in list(range(n)) + [SHARED]]
+        if l == 0 and c.get("sib"):
+            for i in sorted(SIBLINGS):
+                lbl, inst = split_inst(SIBLINGS[i])
+                asrts.append(f'Asrt {bl(lbl)}%N {inst} [{l};{i};7]%N')
         if l > 0:
             asrts.append(f'Asrt {bl("c2pa.ingredient.v3")}%N 0 [{l};9;3]%N')
         asrts.append(f'Asrt {bl("c2pa.hash.data")}%N 0 [{l};9;4]%N')
@@ -261,7 +297,7 @@ def model_expr(c):
     craft = top.get("craft") or {}
     us = coq_list([coq_uri(t) for t in craft.get("unlisted", [])])
     ov = "None" if craft.get("list") is None else "(Some " + coq_list([coq_uri(t) for t in craft["list"]]) + ")"
-    ps = coq_list([f"({bl(mlabel(l))}%N, {bl(custom(l, i))}%N)" for l, i in c.get("post", [])])
+    ps = coq_list([f"({bl(mlabel(l))}%N, ({bl(split_inst(custom(l, i))[0])}%N, {split_inst(custom(l, i))[1]}))" for l, i in c.get("post", [])])
     ings = coq_list([f"m{l}" for l in range(d)])
     return " ".join(lets) + f" run_case top {ings} {rs} {us} {ov} {ps}"
 
@@ -303,7 +339,7 @@ def disallowed_kind(c):
 
 
 def evaluate(ctx, cases, with_model=True):
-    impl = run_par("c20", cases, group_key=lambda c: (c.get("fmt"), tuple(c.get("levels", []))))
+    impl = run_par("c20", cases, group_key=lambda c: (c.get("fmt"), tuple(c.get("levels", [])), bool(c.get("sib"))))
     stats = {"kinds": {}, "depth": {}, "subset_sizes": {}, "outcomes": {}, "markers_checked": 0, "markers_gone": 0, "disallowed_cases": 0,
              "unspecified": 0}
     todo = []
@@ -331,7 +367,7 @@ def evaluate(ctx, cases, with_model=True):
             stats["disallowed_cases"] += 1
             if r["r"] == "ok" and is_valid(r["after"]):
                 ctx.report_violation(c, f"{'; '.join(sorted(set(why)))}: reported {r['after']['state']}", c)
-        elif not craft and r["r"] == "ok" and all(isinstance(t["m"], int) and (t["a"].startswith("com.verif.a") or t["a"] == "com.verif.shared") for t in (top.get("redact") or [])) \
+        elif not craft and r["r"] == "ok" and all(isinstance(t["m"], int) and (t["a"].startswith("com.verif.a") or t["a"] == "com.verif.shared" or t["a"] in SIBLINGS.values()) for t in (top.get("redact") or [])) \
                 and len({(t["m"], t["a"]) for t in top.get("redact") or []}) == len(top.get("redact") or []):
             a = r["after"]
             req = sorted([t["m"], t["a"]] for t in top.get("redact") or [])
@@ -344,7 +380,8 @@ def evaluate(ctx, cases, with_model=True):
                     stats["markers_checked"] += 1
                     is_red = (l, custom(l, i)) in redset
                     man = a["manifests"][l] or {}
-                    present = custom(l, i) in man.get("present", [])
+                    # the report gives base labels only: for same-label siblings presence is judged by the reported payload
+                    present = (custom(l, i) in man.get("present", [])) if i not in (20, 21, 22) else any(f"-L{l}-I{i}-" in s for s in man.get("secrets", []))
                     leaked = any(f"-L{l}-I{i}-" in s for s in man.get("secrets", []))
                     if is_red:
                         stats["markers_gone"] += 1
